@@ -913,3 +913,45 @@ Lemma old_code_refuted_thm :
   late (run (cfg_demo false) 0 alias_evs) = 0 /\ late (run (cfg_demo true) 0 alias_evs) = 0.
 Proof. vm_compute. repeat split; reflexivity. Qed.
 
+
+(* ---------- the scheduler is complete unless it says so ----------
+   `fire_due` carries a fuel only to be structurally recursive.  It stops for one of three reasons: the device entered
+   configuration mode, no armed timer is due any more (exactly the harness double's v_advance), or the fuel ran out and
+   then the very last thing it did was to emit OFault.  So a run without FAULT in its output IS the double's
+   schedule; the theorems do not depend on the fuel at all (they hold for every list of micro-steps, and
+   run_is_mrun holds whatever the fuel). *)
+Lemma mstep_outs c m s : outs (mstep c m s) = outs (mact c m s).
+Proof. unfold mstep; cbv zeta; destruct (mact c m s); reflexivity. Qed.
+Lemma fire_due_complete c fuel e : forall s,
+  let s' := fire_due c fuel e s in
+  halted s' = true \/ pick s' e = None \/ (halted s = false /\ exists l, outs s' = OFault :: l).
+Proof.
+  induction fuel as [|f IH]; intros s; cbn [fire_due].
+  - destruct (pick s e) eqn:E; [|right; left; exact E].
+    destruct (halted s) eqn:Hs; [left; apply halted_sticky; exact Hs|].
+    right; right. split; [reflexivity|]. exists (outs s). rewrite mstep_outs. unfold mact. rewrite Hs. destruct s; reflexivity.
+  - destruct (pick s e) as [[[due sq] k]|] eqn:E; [|right; left; exact E].
+    cbv zeta. set (s2 := mstep c (micro_of k) (mstep c (MTime (Z.max (now s) due)) s)).
+    destruct (halted s2) eqn:H2; [left; exact H2|].
+    destruct (IH s2) as [H|[H|[_ H]]]; [left; exact H|right; left; exact H|].
+    right; right. split; [|exact H].
+    destruct (halted s) eqn:Hs; [|reflexivity]. subst s2. rewrite !halted_sticky in H2 by (try apply halted_sticky; assumption). discriminate.
+Qed.
+
+Lemma pick_now t s e : pick (set_now t s) e = pick s e.
+Proof. destruct s; reflexivity. Qed.
+
+Theorem adv_complete c s dt :
+  let s' := estep c s (EAdv dt) in
+  halted s' = true \/ pick s' (now s + dt) = None \/ exists l, outs s' = OFault :: l.
+Proof.
+  cbv zeta. unfold estep. destruct (halted s) eqn:Hs; [left; exact Hs|]. cbv zeta.
+  set (s1 := fire_due c _ (now s + dt) s).
+  destruct (halted s1) eqn:H1; [left; exact H1|].
+  destruct (fire_due_complete c (Z.to_nat (dt / 5000) + 100) (now s + dt) s) as [H|[H|[_ [l H]]]]; fold s1 in H.
+  - congruence.
+  - right; left. unfold mstep. cbv zeta. unfold mact. rewrite H1.
+    destruct (now s1 <=? Z.max (now s1) (now s + dt)); destruct s1; exact H.
+  - right; right. exists l. rewrite mstep_outs. unfold mact. rewrite H1.
+    destruct (now s1 <=? Z.max (now s1) (now s + dt)); destruct s1; exact H.
+Qed.
